@@ -4,6 +4,7 @@ from __future__ import annotations
 
 import ast as pyast
 import itertools
+import math
 import random
 import re
 import sys
@@ -193,20 +194,37 @@ def judge(case) -> Outcome:
     st = steps()
     # short inputs: polynomial budget; longer generated inputs may legitimately expand to 2^k terms ('a*b*c*...', '(..)**3'),
     # so only a flat cap (orders of magnitude above anything the bounded generators need) guards termination there
-    limit = 4000 + 60 * len(s) + 6 * len(s) ** 2 if len(s) <= 24 else 3_000_000
+    short = len(s) <= 24
+    limit = 4000 + 60 * len(s) + 6 * len(s) ** 2 if short else 3_000_000
     if case.get("long"):  # thousands of operands: ordering them is legitimately quadratic
         limit = 3_000_000 + len(s) ** 2 // 5
-    st.start(limit)
+    # Longer inputs may denote very many terms ('a*b*c*...' has 2^k, a power of a k-term operand up to 2^k): the work is then
+    # judged against the size of the *result* once it is known; while running, only a generous hard cap applies.
+    hard = limit if short or case.get("long") else 60_000_000
+    st.start(hard)
     try:
         if case.get("entry", "Formula") == "Formula":
-            Formula(s, _parser=parser, _context=ctx)
+            res = Formula(s, _parser=parser, _context=ctx)
         else:
-            parser.get_terms(s, context=ctx)
+            res = parser.get_terms(s, context=ctx)
         n = st.stop()
         out.see("parsed")
+        if hard != limit:
+            try:
+                T = sum(len(x) for x in res._flatten()) if hasattr(res, "_flatten") else len(res)
+            except Exception:  # noqa: BLE001
+                T = 0
+            allowed = limit + int(100 * T * (math.log2(T + 2) + 2) ** 2)
+            if n > allowed:
+                out.fail("c14.step_budget_exceeded", f"{s!r} cfg={cfg}: {n} function entries for a result of {T} terms (budget {allowed})")
+                return out
     except StepLimit:
         st.stop()
-        out.fail("c14.step_budget_exceeded", f"{s!r} cfg={cfg}: more than {limit} function entries (non-termination or super-polynomial work)")
+        if hard != limit and re.search(r"(\*\*|\^)[\s(]*\d{4,}", s):
+            out.decided = False  # a huge power of a many-term operand: the result itself may hold 2^k terms; not decidable within the cap
+            out.see("hard_cap_with_huge_exponent")
+            return out
+        out.fail("c14.step_budget_exceeded", f"{s!r} cfg={cfg}: more than {hard} function entries (non-termination or super-polynomial work)")
         return out
     except FormulaParsingError:
         n = st.stop()
